@@ -175,6 +175,8 @@ class SubregionsProfile(HeapProfile):
             return o
         if r < 0.84:
             return {"op": "S.getitem", "on": s, "i": rng.randrange(5), "out": out}
+        if rng.random() < 0.3:
+            return {"op": "S.aligned_far", "on": s, "ax": rng.randrange(nd), "e": rng.choice([4, 5, 5, 6])}
         return {"op": "S.aligned", "a": s, "b": rng.choice(meshes)}
 
 
